@@ -41,7 +41,8 @@ pub mod probes {
     pub const INTO_INNER_PAID_RACE: usize = 28;
     pub const READER_STORAGE: usize = 29;
     pub const PAID_STORAGE: usize = 30;
-    pub const NAMES: [&str; 31] = [
+    pub const PTR_READ_UNPROTECTED: usize = 31;
+    pub const NAMES: [&str; 32] = [
         "fast_confirmed",
         "fast_changed_returned",
         "fast_changed_paid",
@@ -73,6 +74,7 @@ pub mod probes {
         "into_inner_paid_race",
         "reader_storage",
         "paid_storage",
+        "ptr_read_unprotected",
     ];
 }
 
